@@ -758,6 +758,9 @@ func runSessionLife(c *Ctx) {
 				return true
 			})
 			exitSpec.Vias = append(exitSpec.Vias, Via{Cond: func(f *FuncInfo, e ast.Expr) (string, bool, bool) {
+				if o := ObjOf(f.Info(), e); o != nil && remains[o] {
+					return "settled", true, true // a sender-role connection remains
+				}
 				be, ok := ast.Unparen(e).(*ast.BinaryExpr)
 				if !ok || be.Op != token.LAND {
 					return "", false, false
@@ -781,6 +784,82 @@ func runSessionLife(c *Ctx) {
 				}
 				return "", false, false
 			}})
+			// the converse (F26): the session is deleted, and peer_left announced, only for what is really gone - not for
+			// whichever socket closed. `remains` holds the "a sender is still connected" variables; the same shape under
+			// `<elem>.PeerID == peerID` gives the "this peer id is still connected" variables.
+			stillHere := map[types.Object]bool{}
+			ast.Inspect(li.Body, func(n ast.Node) bool {
+				rs, ok := n.(*ast.RangeStmt)
+				if !ok {
+					return true
+				}
+				call, ok := ast.Unparen(rs.X).(*ast.CallExpr)
+				if !ok {
+					return true
+				}
+				if fi := p.CalleeInfo(linfo, call); fi == nil || fi.Name != "peers.(*Hub).List" {
+					return true
+				}
+				ast.Inspect(rs.Body, func(m ast.Node) bool {
+					is, ok := m.(*ast.IfStmt)
+					if !ok {
+						return true
+					}
+					be, ok := ast.Unparen(is.Cond).(*ast.BinaryExpr)
+					if !ok || be.Op != token.EQL {
+						return true
+					}
+					sel, ok := ast.Unparen(be.X).(*ast.SelectorExpr)
+					if !ok || sel.Sel.Name != "PeerID" || ObjOf(linfo, sel.X) != ObjOf(linfo, rs.Value) {
+						return true
+					}
+					for _, st := range is.Body.List {
+						if as, ok := st.(*ast.AssignStmt); ok && len(as.Lhs) == 1 && types.ExprString(as.Rhs[0]) == "true" {
+							stillHere[ObjOf(linfo, as.Lhs[0])] = true
+						}
+					}
+					return true
+				})
+				return true
+			})
+			gone := &PassSpec{Vias: []Via{{Cond: func(f *FuncInfo, e ast.Expr) (string, bool, bool) {
+				if o := ObjOf(f.Info(), e); o != nil {
+					if remains[o] {
+						return "no-sender-remains", false, true
+					}
+					if stillHere[o] {
+						return "peer-gone", false, true
+					}
+				}
+				return "", false, false
+			}}}}
+			// the hub must have been asked after this connection was taken out of it
+			removedFirst := &PassSpec{SkipDefer: true, NoInheritAsync: true, Vias: []Via{{Immediate: true, Call: func(f *FuncInfo, call *ast.CallExpr) (string, bool) {
+				if id, ok := ast.Unparen(call.Fun).(*ast.Ident); ok {
+					if v, ok := ObjOf(f.Info(), id).(*types.Var); ok && v.Name() == "removePeer" {
+						return "own-connection-removed", true
+					}
+				}
+				return "", false
+			}}}}
+			nd, nb := 0, 0
+			lcfg.Calls(func(r NodeRef, call *ast.CallExpr) {
+				if fi := p.CalleeInfo(linfo, call); fi != nil && fi.Name == "session.(*Store).Delete" {
+					nd++
+					c.Check(gone.Passed(li, r, "no-sender-remains") && removedFirst.Passed(li, r, "own-connection-removed"), fmt.Sprintf("host-cleanup/delete-only-without-sender#%d", nd), call.Pos(),
+						"the session is deleted only when, after this connection was removed, no connection with the sender role remains",
+						"the disconnect cleanup deletes the session for whichever socket with role sender closed, without asking the hub (after removing its own connection) whether a sender-role connection remains: a host that reconnected loses its session when the old socket closes, and any peer that connects with role=sender and hangs up ends the real host's session - the join code answers 404 while the host is connected")
+				}
+				if fi := p.CalleeInfo(linfo, call); fi != nil && fi.Name == "peers.(*Hub).Broadcast" {
+					nb++
+					c.Check(gone.Passed(li, r, "peer-gone") && removedFirst.Passed(li, r, "own-connection-removed"), fmt.Sprintf("host-cleanup/peer-left-only-when-gone#%d", nb), call.Pos(),
+						"peer_left is announced only when no connection of that peer id remains",
+						"the disconnect cleanup announces peer_left although a (newer) connection of the same peer id may still be registered: the others drop a peer that is connected and listed")
+				}
+			})
+			if nd == 0 {
+				c.Bad("host-cleanup/delete-only-without-sender", lit.Pos(), "the cleanup literal does not call store.Delete")
+			}
 			facts := exitSpec.Facts(li)
 			ne := 0
 			for _, b := range lcfg.Blocks {
